@@ -228,7 +228,11 @@ func runSchedules(cfg *vlib.Config, r *vlib.Report) {
 		thrSpec{E: en(bDo, cxNone), Out: oBad}, thrSpec{E: en(bDoFb, cxNone), Out: oPanic}, thrSpec{E: en(bAllow, cxLive), Out: oBad})
 	add("threshold-2-mixed", "threshold", false, P+1, 0,
 		thrSpec{E: en(bDoFbAcc, cxNone), Out: oBad}, thrSpec{E: en(bDoAcc, cxNone), Out: oAccErr})
-	add("throttling-3", "throttling", false, P-1, 0,
+	pt3 := 1 // three coin-deciding threads: P=1 in the quick tier (P=2 alone costs ~20 s)
+	if cfg.Thorough() {
+		pt3 = 3
+	}
+	add("throttling-3", "throttling", false, pt3, 0,
 		thrSpec{E: en(bDoFbAcc, cxNone), Out: oOK}, thrSpec{E: en(bDo, cxLive), Out: oBad}, thrSpec{E: en(bAllow, cxNone), Out: oOK})
 	add("throttling-2-done", "throttling", false, P+1, 0,
 		thrSpec{E: en(bDoFb, cxCanceled), Out: oOK}, thrSpec{E: en(bDoFb, cxNone), Out: oOK})
